@@ -90,6 +90,26 @@ func rulesC06(c *Ctx) {
 			c.DominatedByCond(rule, an, "item.Version==pruned-version", `^storage/mkvs/db/badger\.tsToVersion\(github\.com/dgraph-io/badger/v4\.\(\*Item\)\.Version\(.*\)\) == \*?free:version$|^\*?free:version == storage/mkvs/db/badger\.tsToVersion\(`, del, "pruning deletes only nodes created in the pruned version; older nodes are still referenced by retained versions")
 		}
 		c.Check(found, rule, fname(fn)+":visitor-deletes-nodes", c.P.Pos(fn.Pos()), "node deletion found in the prune visitor", "node deletion in the prune visitor not found")
+		// Node keys of this backend are content-addressed (hash only): a node created in the pruned version can
+		// be referenced by a lone root AND by a continuing root of the same version (e.g. an I/O leaf equal to a
+		// state leaf). As in Finalize (not-lone set), the deletion must be protected by a negative membership test
+		// in a set of nodes still in use; "created in this version" alone does not protect them (F13).
+		for _, an := range anonFuncs(fn) {
+			del := CallsArg(an, "batch.Delete(nodeKeyFmt)", bWB+".Delete", 1, `global:storage/mkvs/db/badger\.nodeKeyFmt`)
+			for _, d := range del.Ins {
+				ok := false
+				for _, h := range heldCondVals(d) {
+					l := lookupOf(h.Cond)
+					if l == nil || h.Pol {
+						continue
+					}
+					if _, isMap := l.X.Type().Underlying().(*types.Map); isMap {
+						ok = true
+					}
+				}
+				c.Check(ok, "C06.prune-shared", fname(fn)+":lone-root node deletion protected against nodes shared with continuing roots", c.P.InstrPos(d), "node deletion is dominated by a negative lookup in a still-in-use set", "while pruning a lone root, a content-addressed node created in the pruned version is deleted without any check that a continuing root of the same version also references it: the continuing lineage loses the node")
+			}
+		}
 	}
 	// pathbadger GetNode: for a pending root (seqNo != 0) the pending node set is consulted before
 	// the finalized set (competing candidates of one version share (version,index) keys).
